@@ -73,6 +73,10 @@ class GotranPythonCodePrinter(PythonCodePrinter):
 
         else:
             conds, exprs = _print_Piecewise(self, expr)
+            if all(e.lstrip("-").isdigit() for e in exprs):
+                # If all values are integers, numpy.where returns an integer array, and numpy
+                # refuses e.g. to raise integers to negative integer powers
+                exprs = tuple(f"{e}.0" for e in exprs)
 
             for c, e in zip(conds, exprs):
                 result.append("numpy.where(")
